@@ -139,6 +139,10 @@ type Env struct {
 	wrap    func(sif.ReadWriter) sif.ReadWriter // optional I/O interposer (C09)
 	fileSeq int
 	lastForeign string
+	crashCtl bool           // C09: interpose a controllable recorder on every backing store
+	ctl      *ctlRW         // the interposer of the current handle
+	stats    map[string]int // campaign counters
+	pending  []*Violation   // violations found by the crash oracle during Apply
 }
 
 func (e *Env) Close() {
@@ -248,6 +252,10 @@ func (e *Env) rw() (sif.ReadWriter, error) {
 	if e.wrap != nil {
 		rw = e.wrap(rw)
 	}
+	if e.crashCtl || crashMode {
+		e.ctl = &ctlRW{inner: rw}
+		rw = e.ctl
+	}
 	return rw, nil
 }
 
@@ -257,6 +265,26 @@ type timeBracket struct{ before, after int64 }
 
 // Apply executes op and returns the observation lines the driver must reproduce.
 func (e *Env) Apply(op *Op) []string {
+	if !(e.crashCtl || crashMode) || e.f == nil || e.ctl == nil || !isCrashOp(op.Kind) {
+		return e.applyCore(op)
+	}
+	// C09: record the operation's mutating calls, emit them, and examine every interruption
+	b0 := e.storeBytes()
+	pre := objMap(e.f)
+	op.IO = true
+	e.ctl.arm(0, false)
+	obs := e.applyCore(op)
+	evs := e.ctl.disarm()
+	if e.f != nil {
+		for _, v := range e.crashOracle(op, obs, b0, pre, evs) {
+			v.Prop = "C09"
+			e.pending = append(e.pending, v)
+		}
+	}
+	return append(obs, ioLines(evs)...)
+}
+
+func (e *Env) applyCore(op *Op) []string {
 	switch op.Kind {
 	case "case":
 		return []string{fmt.Sprintf("case %d", op.Case)}
